@@ -67,3 +67,21 @@ Theorem C13_sender_can : forall ps ans, Forall wfp ps -> Forall small ps ->
     = Val (map (fun p => map can_of (frag_spec p)) ps) /\
   can_send cfs ans = (cfs, Val tt).
 Proof. exact sender_can. Qed.
+
+(* the other 'no data yet' answers the streams use between link frames: a serial-port read that fails with any io error other than
+   Interrupted (WouldBlock, Ok(0)->UnexpectedEof, ...) and a CAN receive that reports an overrun - both are 'nothing received' for that poll
+   and lose nothing (same generic lemma: any token q that an idle receiver answers with RNone, state unchanged) *)
+Theorem C13_serial_other_failure : forall ps its fuel, Forall wfp ps -> Forall small ps -> map snd its = concat (map frag_spec ps) ->
+  let s := concat (map (gapped SERR frames_tokens_serial) its) in (length s < fuel)%nat ->
+  filter notnone (map fst (fst (polls serial fuel None s))) = map RPacket ps /\ snd (polls serial fuel None s) = None.
+Proof.
+  apply (transparent_gapped serial eq_refl SERR frames_tokens_serial); [reflexivity|].
+  intros fs st rest H. apply (run_serial_frames fs st rest H).
+Qed.
+Theorem C13_can_overrun : forall ps its fuel, Forall wfp ps -> Forall small ps -> map snd its = concat (map frag_spec ps) ->
+  let s := concat (map (gapped COverrun frames_tokens_can) its) in (length s < fuel)%nat ->
+  filter notnone (map fst (fst (polls can fuel None s))) = map RPacket ps /\ snd (polls can fuel None s) = None.
+Proof.
+  apply (transparent_gapped can eq_refl COverrun frames_tokens_can); [reflexivity|].
+  intros fs st rest H. apply (run_can_frames fs st rest H).
+Qed.
